@@ -145,6 +145,9 @@ func (l *Gpos4_1) apply(ctx *Context, a, b int) int {
 	if p < 0 {
 		return -1
 	}
+	if int(markRecord.Class) >= len(l.BaseArray[baseIdx]) {
+		return -1
+	}
 	baseRecord := l.BaseArray[baseIdx][markRecord.Class]
 	if baseRecord.IsEmpty() {
 		// TODO(voss): verify that this is what others do, too.
